@@ -361,7 +361,7 @@ class BuiltinMixin:
                 return int(x, base) if base is not None else int(x)
             except ValueError:
                 self.raise_builtin("ValueError", "invalid literal for int() with base %s: %r" % (base if base is not None else 10, x))
-        if base is not None:
+        if base is not None and not isinstance(x, SymStr):
             raise Unsupported("int() with base on non-string")
         if isinstance(x, float):
             return int(x)
@@ -379,6 +379,10 @@ class BuiltinMixin:
                 self.raise_builtin("TypeError", "int() argument must be a string or a number, not '%s'" % x.cls.name)
             return self.call(m, [x], {})
         if isinstance(x, SymStr):
+            if len(x.parts) == 1 and not isinstance(x.parts[0], str) and x.parts[0][0] in ("dec", "bit", "hexd") and base in (None, 10, 0):
+                if x.parts[0][0] == "hexd" and (x.parts[0][1].hi is None or x.parts[0][1].hi > 9):
+                    raise Unsupported("int() of a symbolic hex digit")
+                return ops.from_term(x.parts[0][1])      # int(str(n)) == n
             raise Unsupported("int() of symbolic string")
         if x is None:
             self.raise_builtin("TypeError", "int() argument must be a string, a bytes-like object or a real number, not 'NoneType'")
@@ -727,6 +731,10 @@ class BuiltinMixin:
             except PyRaise:
                 return a[2]
         return self.get_attr(a[0], a[1])
+
+    @_b("vars")
+    def b_vars(self, a, k):
+        return self.get_attr(a[0], "__dict__")
 
     @_b("setattr")
     def b_setattr(self, a, k):
